@@ -13,11 +13,13 @@ def jobs(ctx):
 
     def fp(method, measure, subpix, D, k, float_disp=False):
         J.append({'mod': MOD, 'fn': 'refine_fp', 'mode': 'sym',
-                  'args': {'method': method, 'measure': measure, 'subpix': subpix, 'D': D, 'k': k, 'cap': 2 * cap, 'block': blk, 'float_disp': float_disp}})
+                  'args': {'method': method, 'measure': measure, 'subpix': subpix, 'D': D, 'k': k, 'cap': cap, 'block': blk, 'float_disp': float_disp}})
     for method in ('vfit', 'quadratic'):
         for measure in ('min', 'max'):
             real(method, measure, 1, 3, 1); real(method, measure, 1, 3, 0); real(method, measure, 2, 4, 2)
             real(method, measure, 1, 4, 1, frac=2)          # disparity left between two samples by a filter
+            real(method, measure, 1, 4, 2, frac=3)          # ... closer than half a sample to the upper end of the interval
+            real(method, measure, 1, 4, 0, frac=1)          # ... inside the first sample interval (dsp == 0 although disp != d_min)
     if not ctx.quick:
         fp('vfit', 'min', 1, 3, 1); fp('quadratic', 'min', 1, 3, 1)
         for method in ('vfit', 'quadratic'):
